@@ -112,7 +112,14 @@ impl Swarm {
             Focus::Determinism => {
                 // H4: another process (hash key); H5: the same process after it has
                 // converted the same history many times (state that outlives a TypeSpace)
-                s.relation = if rng.chance(1, 8) { Some("H5") } else { Some("H4") };
+                // H1 here: the same definitions delivered in another order must render
+                // byte-identically, not just define the same set (C12: the output depends
+                // on the content of the document only)
+                s.relation = match rng.below(8) {
+                    0 => Some("H5"),
+                    1 => Some("H1"),
+                    _ => Some("H4"),
+                };
                 s.readd = false;
             }
             Focus::Values => {
@@ -984,6 +991,59 @@ fn gen_component(rng: &mut Rng, sw: &Swarm, index: usize) -> Component {
         let defs_model: Defs = defs.clone();
         for (_name, d) in defs.iter_mut() {
             add_defaults(rng, sw, d, &defs_model, true);
+        }
+    }
+    // a string that must NOT be one of some values (a newtype with a deny list)
+    // and a definition that merely aliases it
+    if sw.defaults == 0 && rng.chance(1, 6) {
+        let spell = |w: &str| -> String {
+            match names.first().map(|n| n.as_str()) {
+                Some(n) if n.contains('_') => format!("{}_{}", prefix.to_lowercase(), w.to_lowercase()),
+                Some(n) if n.contains('-') => format!("{}-{}", prefix.to_lowercase(), w.to_lowercase()),
+                _ => format!("{prefix}{w}"),
+            }
+        };
+        let deny = spell("Deny");
+        let alias = spell("Denyalias");
+        if !defs.contains_key(&deny) && !defs.contains_key(&alias) {
+            defs.insert(deny.clone(), json!({"type": "string", "not": {"enum": ["forbidden", "nope"]}}));
+            defs.insert(alias, r(&deny));
+        }
+    }
+    // a named alias of a nullable type and a struct with an optional member of
+    // that type; the struct sorts before the alias in one half of the cases
+    if sw.nullable && rng.chance(1, 6) {
+        let spell = |w: &str| -> String {
+            match names.first().map(|n| n.as_str()) {
+                Some(n) if n.contains('_') => format!("{}_{}", prefix.to_lowercase(), w.to_lowercase()),
+                Some(n) if n.contains('-') => format!("{}-{}", prefix.to_lowercase(), w.to_lowercase()),
+                _ => format!("{prefix}{w}"),
+            }
+        };
+        let alias = spell("Maybe");
+        let user = if rng.chance(1, 2) { spell("Auser") } else { spell("Zuser") };
+        if !defs.contains_key(&alias) && !defs.contains_key(&user) {
+            let a = match rng.below(3) {
+                0 => json!({"anyOf": [{"type": "string"}, {"type": "null"}]}),
+                1 => json!({"type": ["integer", "null"], "format": "int32"}),
+                _ => json!({"type": ["string", "null"]}),
+            };
+            defs.insert(alias.clone(), a);
+            defs.insert(user, json!({"type": "object", "properties": {"nick": r(&alias), "id": {"type": "integer"}}, "required": ["id"]}));
+        }
+    }
+    // two struct definitions whose names differ in letter case only
+    if sw.awkward && rng.chance(1, 6) {
+        let pascal_structs: Vec<String> = defs
+            .iter()
+            .filter(|(n, d)| d.get("type") == Some(&json!("object")) && d.get("properties").is_some() && !n.contains('_') && !n.contains('-') && n.chars().next().map(|c| c.is_ascii_uppercase()).unwrap_or(false))
+            .map(|(n, _)| n.clone())
+            .collect();
+        if let Some(n) = pascal_structs.first() {
+            let twin: String = n.chars().enumerate().map(|(i, c)| if i == 0 { c } else { c.to_ascii_lowercase() }).collect();
+            if twin != *n && !defs.contains_key(&twin) {
+                defs.insert(twin, json!({"type": "object", "properties": {"twin": {"type": "boolean"}}}));
+            }
         }
     }
     // a definition that carries the very name typify generates for an inline child
